@@ -42,3 +42,33 @@ Proof. unfold src_Block_size, block_size. cbv zeta. rewrite src_varint_size. f_e
 Lemma src_block_weight b : src_Block_weight maxvec cap_vecu8 b = block_weight maxvec cap_vecu8 b.
 Proof. unfold src_Block_weight, block_weight. cbv zeta. rewrite src_varint_size. f_equal. apply nsum_map_ext. exact src_weight. Qed.
 End BLK.
+
+(* ---- the generated no-panic conditions of the size accessors are true for every transaction and block (the only partial operation they contain
+   is the division by the constant 4; discount_weight, whose loop subtracts, is covered by C12_discount: no subtraction goes below zero) *)
+Lemma src_scaled_size_safe t k : src_Transaction_scaled_size_safe t k = true.
+Proof.
+  unfold src_Transaction_scaled_size_safe. cbv zeta.
+  destruct (src_preds_safe VNull ANull NNull null_issuance empty_inwit empty_outwit
+              {| in_prev := {| o_txid := []; o_vout := 0 |}; in_pegin := false; in_script := []; in_seq := 0; in_iss := null_issuance; in_wit := empty_inwit |} t 0)
+    as (_ & _ & _ & _ & _ & _ & _ & _ & _ & _ & _ & _ & _ & _ & _ & _ & _ & _ & HW & _).
+  rewrite HW. cbn [andb].
+  apply andb_true_iff. split; apply forallb_forall; intros x _.
+  - assert (HI : src_TxIn_has_issuance_safe x = true) by (unfold src_TxIn_has_issuance_safe, src_AssetIssuance_is_null_safe; destruct (src_Value_is_null _); reflexivity).
+    rewrite HI. destruct (src_TxIn_has_issuance x), (src_Transaction_has_witness t); reflexivity.
+  - destruct (src_Transaction_has_witness t); reflexivity.
+Qed.
+Lemma src_size_safe t : src_Transaction_size_safe t = true.       Proof. apply src_scaled_size_safe. Qed.
+Lemma src_weight_safe t : src_Transaction_weight_safe t = true.   Proof. apply src_scaled_size_safe. Qed.
+Lemma src_vsize_safe t : src_Transaction_vsize_safe t = true.
+Proof. unfold src_Transaction_vsize_safe. rewrite src_weight_safe. reflexivity. Qed.
+Section BLKSAFE.
+Variables maxvec cap_vecu8 : N.
+Lemma src_block_size_safe b : src_Block_size_safe maxvec cap_vecu8 b = true.
+Proof. unfold src_Block_size_safe. cbv zeta. apply andb_true_iff. split.
+  - unfold src_VarInt_size_safe. repeat match goal with |- context [if ?c then _ else _] => destruct c end; reflexivity.
+  - apply forallb_forall. intros x _. apply src_size_safe. Qed.
+Lemma src_block_weight_safe b : src_Block_weight_safe maxvec cap_vecu8 b = true.
+Proof. unfold src_Block_weight_safe. cbv zeta. apply andb_true_iff. split.
+  - unfold src_VarInt_size_safe. repeat match goal with |- context [if ?c then _ else _] => destruct c end; reflexivity.
+  - apply forallb_forall. intros x _. apply src_weight_safe. Qed.
+End BLKSAFE.
